@@ -41,7 +41,7 @@ func c15ModelTable(el *c15El) *model.Table {
 	for r := 0; r < el.Nr; r++ {
 		for cc := 0; cc < el.Nc; cc++ {
 			s := el.Src[r][cc]
-			cell := model.Cell{RowSpan: s.Rs, ColSpan: s.Cs, IsHeader: el.Hdr && r == 0}
+			cell := model.Cell{RowSpan: s.Rs, ColSpan: s.Cs, IsHeader: c15Marked(el, r)}
 			if !s.Covered {
 				cell.Text = s.Raw
 			}
@@ -138,54 +138,99 @@ func c15HTMLCellText(raw string) string {
 	return strings.ReplaceAll(html.EscapeString(raw), "\n", "<br>")
 }
 
+// c15Marked: row r (0-based) is marked as a header row by the source.
+func c15Marked(el *c15El, r int) bool {
+	for _, h := range el.Hrows {
+		if h == r+1 {
+			return true
+		}
+	}
+	return false
+}
+
+// c15LeadMarked is the number of marked rows at the top of the table.
+func c15LeadMarked(el *c15El) int {
+	n := 0
+	for n < el.Nr && c15Marked(el, n) {
+		n++
+	}
+	return n
+}
+
+// c15Crosses: some cell above row b spans into row b or below (a row group boundary at b
+// would cut it, which the HTML / ODF table models do not allow).
+func c15Crosses(el *c15El, b int) bool {
+	for r := 0; r < b && r < el.Nr; r++ {
+		for c := 0; c < el.Nc; c++ {
+			if !el.Src[r][c].Covered && r+el.Src[r][c].Rs > b {
+				return true
+			}
+		}
+	}
+	return false
+}
+
+// c15HTMLTable writes the table with its header marking expressed in one of three ways:
+//
+//	variant 0  the leading marked rows in <thead>, the rest in one <tbody>; marked rows use <th>
+//	variant 1  no <thead>: marked rows are rows of <th> cells; the rows split over two <tbody>
+//	variant 2  as variant 0, and the last row (when it is not a header row) in <tfoot>
+//
+// (<thead> after <tbody> is not generated: it is non-conforming HTML and its row order is
+// presentation-dependent.)
 func c15HTMLTable(el *c15El, b *strings.Builder, variant int) {
+	type group struct {
+		tag    string
+		lo, hi int
+	}
+	var groups []group
+	lead := c15LeadMarked(el)
+	if variant == 1 || lead == 0 || c15Crosses(el, lead) {
+		lead = 0
+	}
+	end := el.Nr
+	if variant == 2 && el.Nr >= 2 && lead < el.Nr && !c15Marked(el, el.Nr-1) && !c15Crosses(el, el.Nr-1) {
+		end = el.Nr - 1
+	}
+	if lead > 0 {
+		groups = append(groups, group{"thead", 0, lead})
+	}
+	if variant == 1 && el.Nr >= 2 && !c15Crosses(el, el.Nr/2) {
+		groups = append(groups, group{"tbody", 0, el.Nr / 2}, group{"tbody", el.Nr / 2, el.Nr})
+	} else if lead < end {
+		groups = append(groups, group{"tbody", lead, end})
+	}
+	if end < el.Nr {
+		groups = append(groups, group{"tfoot", end, el.Nr})
+	}
 	b.WriteString("<table>\n")
-	// variant 0 puts a header row into <thead>; a cell may not span rows beyond its row
-	// group (HTML table model), so a merge that starts in the header row and reaches
-	// into the body keeps all rows in one <tbody> (header cells are then marked by <th>)
-	thead := variant == 0 && el.Hdr
-	for c := 0; c < el.Nc; c++ {
-		if el.Src[0][c].Rs > 1 {
-			thead = false
+	for _, g := range groups {
+		b.WriteString("<" + g.tag + ">")
+		for r := g.lo; r < g.hi; r++ {
+			tag := "td"
+			if c15Marked(el, r) {
+				tag = "th"
+			}
+			b.WriteString("<tr>")
+			for cc := 0; cc < el.Nc; cc++ {
+				s := el.Src[r][cc]
+				if s.Covered {
+					continue
+				}
+				attr := ""
+				if s.Rs > 1 {
+					attr += fmt.Sprintf(` rowspan="%d"`, s.Rs)
+				}
+				if s.Cs > 1 {
+					attr += fmt.Sprintf(` colspan="%d"`, s.Cs)
+				}
+				b.WriteString("<" + tag + attr + ">" + c15HTMLCellText(s.Raw) + "</" + tag + ">")
+			}
+			b.WriteString("</tr>\n")
 		}
+		b.WriteString("</" + g.tag + ">")
 	}
-	for r := 0; r < el.Nr; r++ {
-		tag := "td"
-		if el.Hdr && r == 0 {
-			tag = "th"
-			if thead {
-				b.WriteString("<thead>")
-			}
-		}
-		if r == 1 && thead || r == 0 && !thead {
-			b.WriteString("<tbody>")
-		}
-		b.WriteString("<tr>")
-		for cc := 0; cc < el.Nc; cc++ {
-			s := el.Src[r][cc]
-			if s.Covered {
-				continue
-			}
-			attr := ""
-			if s.Rs > 1 {
-				attr += fmt.Sprintf(` rowspan="%d"`, s.Rs)
-			}
-			if s.Cs > 1 {
-				attr += fmt.Sprintf(` colspan="%d"`, s.Cs)
-			}
-			b.WriteString("<" + tag + attr + ">" + c15HTMLCellText(s.Raw) + "</" + tag + ">")
-		}
-		b.WriteString("</tr>")
-		if r == 0 && thead {
-			b.WriteString("</thead>")
-		}
-		b.WriteString("\n")
-	}
-	if thead && el.Nr == 1 {
-		b.WriteString("</table>\n")
-	} else {
-		b.WriteString("</tbody></table>\n")
-	}
+	b.WriteString("</table>\n")
 }
 
 // c15HTML renders the document as HTML5; skipped lists the elements HTML cannot
@@ -285,11 +330,13 @@ func c15RunWriter(c *c15Case, w string) []c15Out {
 			outs = append(outs, c15Out{Writer: w, Md: strings.Join(coll.ToMarkdownChunksWithOptions(c15Opts(c)), "\n\n"), Only: map[int]bool{n: true}})
 		}
 	case "htmldoc":
-		for variant := 0; variant < 2; variant++ {
+		seen := map[string]bool{}
+		for variant := 0; variant < 3; variant++ {
 			src, only := c15HTML(c, variant)
-			if len(only) == 0 {
-				continue
+			if len(only) == 0 || seen[src] {
+				continue // the variants only differ in how tables mark their header rows
 			}
+			seen[src] = true
 			md, _, err := tabula.FromHTMLString(src).ToMarkdownWithOptions(c15Opts(c))
 			outs = append(outs, c15Out{Writer: w, Md: md, Err: err, Only: only, Input: src})
 			if c15DefaultOpts(c) {
@@ -300,15 +347,6 @@ func c15RunWriter(c *c15Case, w string) []c15Out {
 				}
 				md, err := r.Markdown()
 				outs = append(outs, c15Out{Writer: w, Md: md, Err: err, Only: only, Input: src})
-			}
-			hasHdrTable := false
-			for _, el := range c.Els {
-				if el.T == "table" && el.Hdr {
-					hasHdrTable = true
-				}
-			}
-			if !hasHdrTable {
-				break // the second variant only differs in how a header row is marked up
 			}
 		}
 	case "layout":
